@@ -395,27 +395,83 @@ mut("C11", "cleanup_bumps_baseline", "timing out an unacknowledged message moves
                 false"""))
 mut("C11", "baseline_set_to_last_run", "structural change bumps the baseline to last_run", ["passes-this_run"],
     ("src/server.rs", "ticks.set_mutation_tick(entity.id(), change_tick.this_run());", "ticks.set_mutation_tick(entity.id(), change_tick.last_run());"))
-mut("C11", "client_acks_before_buffering", "client acknowledges before the message is buffered (and even if buffering fails)", ["ack-after-buffering"],
-    ("src/client.rs", """    let mutate_index: MutateIndex = postcard_utils::from_buf(&mut message)?;
-    trace!("received mutate message for {message_tick:?}");
-""", """    let mutate_index: MutateIndex = postcard_utils::from_buf(&mut message)?;
-    postcard_utils::to_extend_mut(&mutate_index, acks)?;
-    trace!("received mutate message for {message_tick:?}");
-"""),
-    ("src/client.rs", """        message,
-    });
+mut("C11", "reintroduce_d13_ack_on_receipt", "the client acknowledges a mutate message as soon as it is ready-tested... before: acknowledges every buffered message, also those still waiting for their update message", ["C11.R4/client/ack-only-when-consumed"],
+    ("src/client.rs", """        if mutate.update_tick > *update_tick {
+            return true;
+        }
 
-    postcard_utils::to_extend_mut(&mutate_index, acks)?;
-""", """        message,
-    });
+        if let Err(e) = postcard_utils::to_extend_mut(&mutate.mutate_index, acks) {
+            error!(
+                "unable to acknowledge mutate message for tick `{:?}`: {e}",
+                mutate.message_tick
+            );
+        }
+""", """        if !mutate.acked {
+            mutate.acked = true;
+            if let Err(e) = postcard_utils::to_extend_mut(&mutate.mutate_index, acks) {
+                error!(
+                    "unable to acknowledge mutate message for tick `{:?}`: {e}",
+                    mutate.message_tick
+                );
+            }
+        }
+
+        if mutate.update_tick > *update_tick {
+            return true;
+        }
+"""),
+    ("src/client.rs", """        mutate_index,
+        message,
+    });""", """        mutate_index,
+        acked: false,
+        message,
+    });"""),
+    ("src/client.rs", """    /// Index to acknowledge once the message is consumed.
+    mutate_index: MutateIndex,
+""", """    /// Index to acknowledge once the message is consumed.
+    mutate_index: MutateIndex,
+
+    acked: bool,
 """))
-mut("C11", "client_skips_ack_send_on_error", "acks are dropped when one message failed to buffer", ["acks-always-sent"],
-    ("src/client.rs", """            if let Err(e) = buffer_mutate_message(params, buffered_mutations, message, &mut acks) {
-                error!("unable to buffer mutate message: {e}");
-            }""", """            if let Err(e) = buffer_mutate_message(params, buffered_mutations, message, &mut acks) {
-                error!("unable to buffer mutate message: {e}");
-                return;
+mut("C11", "client_acks_only_successfully_applied", "a message whose application failed is consumed without being acknowledged", ["C11.R4/client/every-consumed-message-acked"],
+    ("src/client.rs", """        if let Err(e) = postcard_utils::to_extend_mut(&mutate.mutate_index, acks) {
+            error!(
+                "unable to acknowledge mutate message for tick `{:?}`: {e}",
+                mutate.message_tick
+            );
+        }
+
+        trace!("applying mutate message for {:?}", mutate.message_tick);""", """        trace!("applying mutate message for {:?}", mutate.message_tick);"""),
+    ("src/client.rs", """        match len {
+            Ok(len) => {
+                if let Some(stats) = &mut params.stats {
+                    stats.entities_changed += len;
+                }
+            }""", """        match len {
+            Ok(len) => {
+                if let Err(e) = postcard_utils::to_extend_mut(&mutate.mutate_index, acks) {
+                    error!("unable to acknowledge mutate message: {e}");
+                }
+                if let Some(stats) = &mut params.stats {
+                    stats.entities_changed += len;
+                }
             }"""))
+mut("C11", "client_acks_sent_before_consuming", "the acknowledgement buffer is sent before the buffered messages are consumed (always empty)", ["C11.R4/apply_replication/acks-sent-after-consuming"],
+    ("src/client.rs", """    let mut acks = Vec::new();
+    apply_mutate_messages(world, params, buffered_mutations, update_tick, &mut acks);
+    if !acks.is_empty() {
+        client.send(ClientChannel::MutationAcks, acks);
+    }""", """    let mut acks = Vec::new();
+    if !acks.is_empty() {
+        client.send(ClientChannel::MutationAcks, acks.clone());
+    }
+    apply_mutate_messages(world, params, buffered_mutations, update_tick, &mut acks);"""))
+mut("C11", "client_sends_other_buffer", "a fresh buffer instead of the collected acknowledgements is sent", ["C11.R4/apply_replication/sends-the-collected-acks"],
+    ("src/client.rs", """    if !acks.is_empty() {
+        client.send(ClientChannel::MutationAcks, acks);
+    }""", """    if !acks.is_empty() {
+        client.send(ClientChannel::MutationAcks, Vec::with_capacity(acks.len()));
+    }"""))
 
 # ------------------------------------------------------------------ C09
 mut("C09", "reintroduce_d8_buffers_not_reset", "server::reset forgets the despawn buffer", ["DespawnBuffer/reset-on-stop"],
@@ -799,6 +855,13 @@ mut("C11", "seeded_c11b_expired_lists_pooled_uncleared", "entity lists are clear
         released.clear();
         entity_buffer.push(released);
 """))
+
+mutp("C14", "seeded_c14b_component_count_hashed_as_priority", "replicate_with_priority feeds the hasher the rule's component count instead of the priority argument (seeded change c14b)",
+     ["C14.R1/<bevy_app::app::App as shared::replication::replication_rules::AppRuleExt>::replicate_with_priority/ReplicationRules::insert/value-arg-1-is-parameter"], "seeded/c14b/patch.diff")
+mutp("C12", "seeded_c12b_confirm_at_buffer_time", "a tick is counted as received when its mutate message is buffered, not when it is applied (seeded change c12b)",
+     ["C12.R4/client::buffer_mutate_message/confirm-after-apply"], "seeded/c12b/patch.diff")
+mutp("C13", "seeded_c13b_direct_server_goes_on_wire", "an independent event sent Direct(SERVER) is also queued for the network (seeded change c13b)",
+     ["C13.R6/send_independent_event/Direct/guards"], "seeded/c13b/patch.diff")
 
 # first-sight completeness (shared rule: C07.R6 / C03.R7 / C08.R6)
 mut("C07", "seeded_c07a_rate_limited_components_skipped", "rate-limited components are skipped before the per-client pass unless just added (late-authorized clients never get them)", ["C07.R6/collect_changes/every-component-reaches-clients"],
